@@ -158,7 +158,7 @@ func runC01(e *Env) {
 			budget = 300 + r.Intn(300)
 		}
 		o := GenOpts{MaxStmts: 3 + r.Intn(3), MaxDepth: 2 + r.Intn(3), Budget: budget, Funcs: r.Chance(70), Closures: true,
-			Containers: r.Chance(70), Strings: r.Chance(60), CtlHeavy: r.Chance(30), NoCtlInSwitch: false}
+			Containers: r.Chance(70), Strings: r.Chance(60), CtlHeavy: r.Chance(30), NoCtlInSwitch: false, Shadow: true}
 		p := GenProgram(r, o)
 		src := Src(p)
 		out := EvalSrc(src, 5*time.Second)
